@@ -9,6 +9,7 @@
      handler  "method" | "ptrmethod" | "func" | "importedfunc" | "importedmethod" | "literal"
      input    "none" | "int" | "struct" | "slice" | "ptr"      (c.Bind(&in) / c.Bind(in) with in a pointer)
      query    atoms: "plain:<name>" (c.QueryParam) | "bool:<name>" | "int64:<name>" (typed helpers) | "generic:<name>" (QueryParamInt[IdDossier]) | "pkggeneric:<name>" (inner.QueryParamInt[IdDossier])
+                    | "late:<name>" (c.QueryParam read AFTER a nested block that answers early: every later read still is an input)
      form     [values : Seq(name), file : name or "", json : name or "", jsonkind : "" | "struct" | "string"]
      ret      "none" | "json" | "jsonlit" | "pretty" | "blob"
    Types are written as Go type strings with PKG standing for the package of the route file.      *)
@@ -36,7 +37,7 @@ RECURSIVE ColonAt(_, _)
 ColonAt(s, i) == IF SubSeq(s, i, i) = ":" THEN i ELSE ColonAt(s, i + 1)
 QKind(a) == SubSeq(a, 1, ColonAt(a, 1) - 1)
 QName(a) == SubSeq(a, ColonAt(a, 1) + 1, Len(a))
-QType(a) == CASE QKind(a) = "plain" -> "string" [] QKind(a) = "bool" -> "bool" [] QKind(a) = "int64" -> "int64" [] OTHER -> "PKG.IdDossier"
+QType(a) == CASE QKind(a) = "plain" -> "string" [] QKind(a) = "late" -> "string" [] QKind(a) = "bool" -> "bool" [] QKind(a) = "int64" -> "int64" [] OTHER -> "PKG.IdDossier"
 
 HandlerName(r, idx) == CASE r.handler \in {"method", "ptrmethod"} -> "handle" \o ToString(idx)
                          [] r.handler = "func" -> "plain" \o ToString(idx)
